@@ -85,6 +85,9 @@ def run(rep: Report, tier: str) -> None:
 		ks = set(dict_keys(d))
 		kind = 'tree' if 'children' in ks else ('token' if 'value' in ks else '?')
 		v = next((v_ for k_, v_ in zip(d.keys, d.values) if const_str(k_) == 'source_map'), None)
+		# `(*m['begin'], *m['end'])` spreads the two (line, column) pairs in place: read as the four positions
+		if isinstance(v, ast.Tuple) and len(v.elts) == 2 and all(isinstance(e, ast.Starred) for e in v.elts):
+			v = ast.Tuple(elts=[ast.Subscript(value=e.value, slice=ast.Constant(value=i_), ctx=ast.Load()) for e in v.elts for i_ in (0, 1)], ctx=ast.Load())
 		if not isinstance(v, ast.Tuple) or len(v.elts) != 4:
 			r.skip(f'writer:{kind}:source_map-order', dumps.where, 'the source_map value of the record is not a 4-tuple expression')
 			continue
